@@ -411,6 +411,10 @@ func (w *walker) field(prefix string, fdp *descriptorpb.FieldDescriptorProto, an
 		"chain":  chainOf(own, anc),
 		"hasdefval": fdp.DefaultValue != nil,
 		"defval":    fdp.GetDefaultValue(),
+		// the names TextName() is computed from (Model/FieldView.v fnames)
+		"pname":  fdp.GetName(),
+		"parent": prefix,
+		"tname":  tn,
 	}
 	return map[string]any{"k": "field", "name": name, "in": in}
 }
@@ -428,6 +432,14 @@ func (w *walker) emitField(e map[string]any) {
 	if w.rt != nil {
 		if rf, ok := r.(protoreflect.FieldDescriptor); ok {
 			e["rt"] = fieldAttrs(rf)
+			if m := rf.Message(); m != nil {
+				// the two scope tests of the runtime's isGroupLike, as they are on its own descriptors
+				sameScope := rf.ContainingMessage() == m.Parent()
+				if rf.IsExtension() {
+					sameScope = rf.Parent() == m.Parent()
+				}
+				e["rtscope"] = []bool{m.ParentFile() == rf.ParentFile(), sameScope}
+			}
 		} else {
 			w.errs = append(w.errs, "runtime has no field "+name)
 		}
